@@ -190,4 +190,89 @@ func runWedge(c *ctx) {
 		e.sink.Close()
 		netn++
 	}
+	// the real ticker goroutine (period 1 s) against a periodic query that takes longer than the period: a tick expires while
+	// the server is busy, the session holding the period's last URR is deleted meanwhile.  Afterwards periodic reporting must
+	// still work: the next session with a periodic URR gets its periodic reports, and requests are answered.
+	rt := 4
+	if c.thorough() {
+		rt = 8
+	}
+	for i := 0; i < rt; i++ {
+		e := newBufEnv(c, netn)
+		e.start()
+		var pend [][]byte
+		asr := e.rpc(message.NewAssociationSetupRequest(e.nextSeq(), ie.NewNodeID(e.ip(1), "", ""), ie.NewRecoveryTimeStamp(time.Unix(1700000000, 0))), &pend)
+		if causeOf(asr) != "1" {
+			fmt.Fprintln(os.Stderr, "harness: association refused")
+			die(3)
+		}
+		e.d.pk.mu.Lock()
+		e.d.pk.reports = func(cmd uint8, seid uint64, urr uint32) [][]byte { return [][]byte{usaReportAttr(seid, urr)} }
+		e.d.pk.mu.Unlock()
+		est := func(cp uint64) message.Message {
+			return message.NewSessionEstablishmentRequest(0, 0, 0, e.nextSeq(), 0,
+				ie.NewNodeID(e.ip(1), "", ""), ie.NewFSEID(cp, net.ParseIP(e.ip(1)), nil),
+				ie.NewCreateURR(ie.NewURRID(1), ie.NewMeasurementMethod(0, 1, 0), ie.NewReportingTriggers(0x01, 0x00), ie.NewMeasurementPeriod(time.Second)))
+		}
+		e.d.pk.mu.Lock()
+		e.d.pk.delay = map[uint8]time.Duration{gtp5gnl.CMD_GET_MULTI_REPORTS: time.Duration(1250+50*i) * time.Millisecond}
+		e.d.pk.mu.Unlock()
+		rsp := e.rpc(est(0x9100), &pend)
+		er, isEst := rsp.(*message.SessionEstablishmentResponse)
+		if !isEst || causeOf(rsp) != "1" || er.UPFSEID == nil {
+			fmt.Fprintln(os.Stderr, "harness: establishment refused:", causeOf(rsp))
+			die(3)
+		}
+		fs, _ := er.UPFSEID.FSEID()
+		// tick 1 at 1 s (slow query until ~2.3 s), tick 2 at 2 s finds the server busy
+		time.Sleep(2100 * time.Millisecond)
+		drainConn(e.smf)
+		e.rpc(message.NewSessionDeletionRequest(0, 0, fs.SEID, e.nextSeq(), 0), &pend)
+		e.d.pk.mu.Lock()
+		e.d.pk.delay = nil
+		e.d.pk.mu.Unlock()
+		time.Sleep(1500 * time.Millisecond)
+		drainConn(e.smf)
+		// the next periodic URR and its reports
+		m2 := est(0x9101)
+		b := make([]byte, m2.MarshalLen())
+		if err := m2.MarshalTo(b); err == nil {
+			e.smf.WriteToUDP(b, e.srvA)
+		}
+		periodic := 0
+		alive := false
+		deadline := time.Now().Add(4500 * time.Millisecond)
+		for time.Now().Before(deadline) && !(alive && periodic > 0) {
+			for _, d := range drainConn(e.smf) {
+				if msg, err := message.Parse(d); err == nil {
+					if sr, ok := msg.(*message.SessionReportRequest); ok && len(sr.UsageReport) > 0 {
+						periodic++
+						// answer it, so that the request does not sit in the retransmission table
+						ans, _ := message.NewSessionReportResponse(0, 0, sr.SEID(), sr.Sequence(), 0, ie.NewCause(ie.CauseRequestAccepted)).Marshal()
+						e.smf.WriteToUDP(ans, e.srvA)
+					}
+				}
+			}
+			if !alive {
+				alive = e.doFence(300 * time.Millisecond)
+			} else {
+				time.Sleep(50 * time.Millisecond)
+			}
+		}
+		res := "alive"
+		if !alive {
+			res = "wedged"
+		} else if periodic == 0 {
+			res = "noperiodic"
+		}
+		c.count("realtick." + res)
+		c.emit("T wedge.realtick qms=%d = %s", 1250+50*i, res)
+		if alive && periodic > 0 {
+			e.stop()
+		}
+		e.smf.Close()
+		e.fence.Close()
+		e.sink.Close()
+		netn++
+	}
 }
